@@ -87,7 +87,33 @@ obligation is attributed)
                                    gen_from_ep_name, gen_ep_name_has_namespace
   Bridge/PluginGroupFns.lean       gen_versions, gen_resolve, gen_contains, gen_keys, gen_get_unsafe,
                                    gen_get, gen_getitem
-  Bridge/PluginGroupFnsReg.lean    gen_add_ep, gen_manual_register, gen_register_in_group
+  Bridge/PluginGroupFnsReg.lean    gen_add_ep, gen_manual_register, gen_register_in_group,
+                                   gen_registration_is_register (both paths = the model's `register`)
+
+Model: `Model/Plugin.lean` got `hasNamespace`, `addEp`, `registerManual` (the two registration paths from
+the strings they are given, with their failure cases); the version-table part of both is `register`.
+
+Mutation tests (METADOR_REPO=<scratch worktree> ./check C16 --tier quick)
+  behaviour-changing edits, each exit 1 with the broken bridge module named first and failing inputs from the
+  oracle / the correspondence run: `.sort()` dropped in `register_in_group` (gen_manual_register; = pinned F9),
+  `requested.supports(ref)` for `ref.supports(requested)` in `versions` (gen_versions), `if ep_name not in
+  self._VERSIONS` in `_add_ep` (gen_add_ep; = pinned F8), `"-".join` in `to_semver_str` (gen_to_semver_str),
+  `return False` for `return True` in `__contains__` (gen_contains), `LETSEP = r"[_.-]"` (gen_NAME … ;
+  no failing input in the quick tier, the obligation alone fails the check).
+  Seeded changes: C16-s2 (`_add_version` helper sorting by version string), C16-s3 (`p_name.replace`),
+  C16-t1 (`ref.version[:2]` preference in `resolve`), C16-t3 (`_COMPATIBLE` memo): TranslateError naming the
+  construct -> translate:C16 + the bridge module of the function undischarged, exit 1, failing inputs found.
+  C16-s1/s4/t2 touch `PluginRef.__ge__` / the metaclass loop / `__hash__`: harness/translate.py's part.
+  behaviour-preserving edits that stay green (applied together, exit 0): renamed locals and loop variables,
+  comments and docstrings, reordered independent statements (`_ENTRY_POINTS` / `_LOADED_PLUGINS` stores, `pg_ref`
+  before `ep_name`), `if x := e` <-> `x = e; if x`, `return a if c else b` <-> if-statement (`resolve`,
+  `__contains__`), `if c: A; B` <-> `if not c: B else: A` (`versions`, `__getitem__`, `_get_unsafe`, `get`),
+  `yield from l` <-> `for x in l: yield x`, `not version` <-> `version is None`, `not plugin` <-> `plugin is None`,
+  `a and b` test <-> nested ifs, `name not in d` <-> `not (name in d)`, intermediate locals, `d.get(k) or []` <->
+  `d.get(k, [])`, f-string <-> `+`, `(…)` <-> `(?:…)` in a pattern.
+  Known to break the tie although harmless: `setdefault`, `sorted(..)` for `list(..)`, a generator expression or
+  comprehension for `map`, `rsplit`, `[0123456789]` for `[0-9]` (the proofs are about the class as written), helper
+  methods / new constants / new attributes the translator does not know, `assert`, logging calls.
 """
 import ast
 import os
